@@ -77,6 +77,8 @@ def gen_derivative(rng, did, prim, kinds=None, steps=None, call=None):
     dt = prim["params"]["dt"]
     k = steps if steps is not None else rng.randint(2, 9)
     params = {"maturity": k * dt}
+    if k >= 1 and rng.chance(0.2):
+        params["maturity"] = (k - rng.choice([0.5, 0.25, 0.75])) * dt   # same k+1 grid points, the grid overshoots the maturity
     if kind in OPTION_KINDS:
         params["call"] = rng.chance(0.6) if call is None else call
         params["strike"] = gen_strike(rng)
